@@ -102,6 +102,10 @@ def gen_pairs(ctx, n):
             y = g.edits(x, ctx.rng.randint(1, 2))
         if FAM.in_universe(x, y) and not any(isinstance(k, str) and k.startswith('__') for k in ()):
             out.append((x, y))
+    # items at one index that are == but of different types, left unpaired by some knob settings; a set against the frozenset of the same members
+    for (x, y) in [([5, 1], [5, True]), ([0, 'a'], [False, 'a']), ([{1}], [frozenset({1})]), ([5, {1, 2}], [5, frozenset({1, 2})]), ({'k': [3, 1]}, {'k': [3, True]}),
+                   ([1, 2, 3], [True, 2, 3])]:          # not tuples such as (1, 2) / (True, 2): they are == and share one entry of the hashes table (NoNumAlias)
+        out.append((x, y))
     # same support, same length, different multiplicities (and the same lists nested one level down)
     pool = [0, 1, 2, 'a', 'b', None, 1.5, (1, 2), [3], {'k': 1}]
     for _ in range(max(6, n // 6)):
